@@ -89,7 +89,20 @@ func (v *vx) verify(proof []vortex.Hash, i int, leaf, root vortex.Hash) (ok bool
 			v.t.Fatalf("vortex/%s: MerkleProof.Verify(i=%d, len(proof)=%d) panicked: %v", v.flav, i, len(proof), r)
 		}
 	}()
-	return vortex.MerkleProof(proof).Verify(i, leaf, root) == nil
+	// the proof is handed over with foreign hashes in the spare capacity of its slice
+	q := make([]vortex.Hash, len(proof), len(proof)+2)
+	copy(q, proof)
+	full := q[:cap(q)]
+	for j := len(proof); j < len(full); j++ {
+		full[j] = vHash("foreign", 7000+j)
+	}
+	ok = vortex.MerkleProof(q).Verify(i, leaf, root) == nil
+	for j := len(proof); j < len(full); j++ {
+		if full[j] != vHash("foreign", 7000+j) {
+			v.t.Fatalf("vortex/%s: MerkleProof.Verify wrote into the spare capacity of the proof", v.flav)
+		}
+	}
+	return ok
 }
 
 // agree: library verifier == reference verifier for a tree with P (power of two) leaves.
@@ -119,11 +132,32 @@ func (v *vx) size(n int, allIdx bool, k, nsh int) {
 	padded := make([]vortex.Hash, P)            // documented: padded with zero hashes
 	v.sanity = v.flav == "distinct" && P-n <= 1 // two or more padding leaves are equal leaves
 	copy(padded, leaves)
-	mt := vortex.BuildMerkleTree(append([]vortex.Hash{}, leaves...))
+	// The leaves are handed over twice: as a slice of exactly n elements, and as the window pool[3:3+n] of a
+	// larger caller buffer whose other elements (in front of the window and behind it, in its spare capacity)
+	// hold non-zero foreign hashes. Both must give the documented zero-padded tree, and the call must leave
+	// the whole buffer as it was.
 	wantRoot := ref.CompleteRoot(padded, vortex.CompressPoseidon2)
+	exact := make([]vortex.Hash, n)
+	copy(exact, leaves)
+	if r := vortex.BuildMerkleTree(exact).Root(); r != wantRoot {
+		v.t.Fatalf("vortex/%s n=%d (slice without spare capacity): Root = %s, reference root over %d padded leaves = %s", v.flav, n, hstr(r), P, hstr(wantRoot))
+	}
+	pool := make([]vortex.Hash, 3+2*P+5)
+	for j := range pool {
+		pool[j] = vHash("foreign", 5000+j)
+	}
+	copy(pool[3:], leaves)
+	snapshot := append([]vortex.Hash{}, pool...)
+	mt := vortex.BuildMerkleTree(pool[3 : 3+n])
+	for j := range pool {
+		if pool[j] != snapshot[j] {
+			v.t.Fatalf("vortex/%s n=%d: BuildMerkleTree modified element %d of the caller's buffer (the leaves are the window [3,%d))", v.flav, n, j, 3+n)
+		}
+	}
+	v.count("input:slice_with_dirty_spare_capacity", fmt.Sprintf("BuildMerkleTree n=%d window of %d", n, len(pool)))
 	root := mt.Root()
 	if root != wantRoot {
-		v.t.Fatalf("vortex/%s n=%d: Root = %s, reference root over %d padded leaves = %s", v.flav, n, hstr(root), P, hstr(wantRoot))
+		v.t.Fatalf("vortex/%s n=%d (window of a larger populated buffer): Root = %s, reference root over %d padded leaves = %s", v.flav, n, hstr(root), P, hstr(wantRoot))
 	}
 	if d := mt.Depth(); 1<<d != P {
 		v.t.Fatalf("vortex n=%d: Depth() = %d", n, d)
@@ -274,7 +308,11 @@ func TestC16_Vortex(t *testing.T) {
 			if strings.HasPrefix(c, "trivial:") {
 				nt = 0
 			}
-			rep.Count(test, "vortex/"+flav+"/"+c, n, nt, v.sample[c])
+			name := "vortex/" + flav + "/" + c
+			if strings.HasPrefix(c, "input:") {
+				name = c // cross-cutting class declared mandatory in conf/c16.py
+			}
+			rep.Count(test, name, n, nt, v.sample[c])
 		}
 	}
 	rep.Exhaustive(test)
